@@ -28,6 +28,20 @@ def judge(rec, price, ops):
     return bad
 
 
+def coq_queries(rec, price, ops):
+    out = []
+    for o in rec["ops"]:
+        I = o["I"]
+        if I in ("panic", "skipped", "timeout") or I.startswith("read="):
+            continue
+        for part in I.split(" || "):
+            d = lvl.kv(part)
+            if "cv" in d and "vec" in d and d.get("built", "ok") == "ok":
+                out.append((o["i"], "agg %s %s %s %s" % (d["cv"], d["ch"], d["cc"], d["vec"]),
+                            "after `%s`: the aggregates do not describe the listed orders" % o["op"][:60]))
+    return out
+
+
 def corr_filter(text):
     # C01 depends on the aggregates, the listing and what constructors do; not on statistics or match details
     return any(k in text for k in (" cv ", " ch ", " cc ", "listing", "total", "constructor", "permutation", "panic", "model="))
@@ -50,4 +64,4 @@ def make_cases(rng, tier):
 
 def run(tier, seed, replay=None):
     return run_property("C01", tier, seed, replay, make_cases=make_cases, judge=judge, corr_filter=corr_filter,
-                        nontrivial=nontrivial_default)
+                        nontrivial=nontrivial_default, coq_queries=coq_queries)
